@@ -75,8 +75,8 @@ def regions_of(dump, defs):
     return regs
 
 
-def check_tree(drv, el, dump, defs, values, out, stats):
-    """defs: list of (key, real element, dump)."""
+def check_tree(drv, el, dump, defs, values, out, stats, history=()):
+    """defs: list of (key, real element, dump); history: the definitions of earlier serializations of this same tree object."""
     kwargs = {"definitions": {k: e for k, e, _ in defs}} if defs else {}
     try:
         doc = plain(serialize_json(el, **kwargs))
@@ -90,6 +90,9 @@ def check_tree(drv, el, dump, defs, values, out, stats):
         req["definitions"] = [[k, d] for k, _, d in defs]
     rep = drv.ask(req)
     case = {"element": dump, "definitions": [[k, d] for k, _, d in defs]}
+    if history:
+        case["earlier_serializations"] = [[[k, d] for k, _, d in h] for h in history]
+        stats["re-serialized"] = stats.get("re-serialized", 0) + 1
     out.note_case(case, len(json.dumps(dump)) > 120)
     stats["serialize-" + real["r"]] = stats.get("serialize-" + real["r"], 0) + 1
     agree = rep == real
@@ -163,7 +166,8 @@ def run(ctx, scale=1.0):
     rng = random.Random(ctx["seed"] + 3)
     out = Outcome()
     out.rule = ("element trees: parsed from generated schemas and DSL-built (renamed properties, explicit required lists, nested and repeated "
-                "classes), one third with caller-supplied definitions taken from the tree or fresh; 6 values each; a case is one tree; "
+                "classes), one third with caller-supplied definitions taken from the tree or fresh, and then serialized again (same tree object) "
+                "without them and with the same keys bound to other elements; 6 values each; a case is one serialization of one tree; "
                 "non-trivial = dump longer than 120 characters; distinct by SHA-256")
     stats = {}
     drv = core.Driver()
@@ -194,6 +198,14 @@ def run(ctx, scale=1.0):
                     if sd.get("cls") != "Object":
                         defs.append(("shared", dsl.build(sd), sd))
             check_tree(drv, el, dump, defs, values, out, stats)
+            if defs:
+                # the same tree object again: without the definitions, then with the same keys bound to other elements
+                check_tree(drv, el, dump, [], values, out, stats, history=[defs])
+                rebound = []
+                for k, _, _ in defs:
+                    dd = dg.leaf()
+                    rebound.append((k, dsl.build(dd), dd))
+                check_tree(drv, el, dump, rebound, values, out, stats, history=[defs, []])
     finally:
         drv.close()
     out.stats = stats
@@ -215,6 +227,11 @@ def _replay_case(case):
         el = dsl.build(case["element"])
         defs = [(k, dsl.build(d), d) for k, d in case.get("definitions", [])]
         vals = [dsl.dec_val(v) for v in case.get("values", [])]
+        for earlier in case.get("earlier_serializations", []):
+            try:
+                serialize_json(el, **({"definitions": {k: dsl.build(d) for k, d in earlier}} if earlier else {}))
+            except Exception:  # noqa: BLE001
+                pass
         check_tree(drv, el, case["element"], defs, vals, out, stats)
     finally:
         drv.close()
